@@ -87,7 +87,15 @@ fn main() {
                     // evaluate and report the error together with the depth of the recorded stack trace
                     out = eval_all(&mut vm, rest);
                     let depth = vm.last_stacktrace().map(|t| t.frames.len());
-                    out = format!("{} [trace-frames={:?}]", out, depth);
+                    // the length of the stack vector (it doubles when the stack pointer reaches its end and never shrinks), read off
+                    // the Debug rendering of the machine: `stack: Stack { stack: [c0, c1, ...], sp: n }` (all cells are wiped after an error)
+                    let dbg = format!("{:?}", vm);
+                    let slots = dbg.find("stack: Stack { stack: [").map(|p| {
+                        let rest = &dbg[p..];
+                        let end = rest.find("], sp:").unwrap_or(rest.len());
+                        rest[..end].matches("Undefined").count()
+                    });
+                    out = format!("{} [trace-frames={:?}] [stack-slots={:?}]", out, depth, slots);
                 } else if let Some(rest) = form.trim_start().strip_prefix("#slices ") {
                     let (hdr, body) = rest.split_once(':').unwrap_or(("1 1000", rest));
                     let mut it = hdr.split_whitespace();
